@@ -12,3 +12,4 @@ import MidoProofs.TableTie
 #print axioms Mido.tie_meta_specs
 #print axioms Mido.tie_keys
 #print axioms Mido.tie_frame_rates
+#print axioms Mido.tie_meta_defaults
